@@ -98,6 +98,10 @@ pub mod yaml;
 /// Text processing utilities (UTF-8 validation, etc.).
 pub mod text;
 
+#[cfg(feature = "verif-hooks")]
+#[doc(hidden)]
+pub mod verif_hooks;
+
 // =============================================================================
 // Public re-exports (convenience + backward compatibility)
 // =============================================================================
